@@ -99,6 +99,7 @@ def run_stream(job, seed, tier, tmpdir, deadline, chunk, results, wid, max_viols
                 break
             if viol:
                 viol["stderr"] = r.stderr[-2000:]
+                viol["batch_start"] = pos
                 viol["job"] = job
                 viol["seed"] = seed
                 vr = int(viol.get("run", pos))
@@ -393,7 +394,32 @@ def check_property(prop, tier, seed):
                 r1 = replay_once(job.bin, path, job.env)
                 r2 = replay_once(job.bin, path, job.env)
                 if not (r1 and r2 and r1.get("vclass") == v["vclass"] and r2.get("vclass") == v["vclass"]):
-                    log("violation %s (run %s) did NOT reproduce from its replay file (%s / %s): infrastructure error" % (v["vclass"], v.get("run"), r1 and r1.get("vclass"), r2 and r2.get("vclass")))
+                    # The single-run replay differs.  A library that corrupts memory can behave differently
+                    # depending on what ran before in the same process, so fall back to replaying the batch
+                    # segment that produced it (same process history, address randomisation is off).
+                    bs = int(v.get("batch_start", v.get("run", 0)))
+                    cmd = job.cmd(v.get("seed", seed), bs, int(v.get("run", bs)) - bs + 1, tier, REPLAYS, None, 300)
+                    def rerun():
+                        try:
+                            rr = subprocess.run(cmd, stdout=subprocess.PIPE, stderr=subprocess.PIPE, text=True, timeout=600, errors="replace")
+                        except subprocess.TimeoutExpired:
+                            return None
+                        for line in rr.stdout.splitlines():
+                            if line.startswith("VIOL "):
+                                return parse_viol(line)
+                        return None
+                    b1, b2 = rerun(), rerun()
+                    if b1 and b2 and b1.get("vclass") == b2.get("vclass") and b1.get("run") == b2.get("run"):
+                        tag = "%s-%s-%s" % (vp, re.sub(r"[^A-Za-z0-9]+", "_", b1["vclass"]), b1.get("run", "0"))
+                        final = os.path.join(REPLAYS, tag + "-batch.json")
+                        json.dump({"format": "mvsim-cmd-1", "property": vp, "vclass": b1["vclass"], "msg": b1.get("msg", ""), "cmd": cmd,
+                                   "note": "the violation depends on the in-process history (memory corruption); replay = the batch segment"}, open(final, "w"), indent=1)
+                        out_lines.append("VIOLATION property=%s replay=%s" % (vp, final))
+                        log("  class=%s seed=%s run=%s (batch replay): %s" % (b1["vclass"], v.get("seed"), b1.get("run"), b1.get("msg", "")[:300]))
+                        final_viol.append({"property": vp, "class": b1["vclass"], "msg": b1.get("msg", "")[:500], "replay": final, "run": b1.get("run")})
+                        rc = 1
+                        continue
+                    log("violation %s (run %s) did NOT reproduce, neither from its replay file (%s / %s) nor from its batch segment: infrastructure error" % (v["vclass"], v.get("run"), r1 and r1.get("vclass"), r2 and r2.get("vclass")))
                     infra.append(v)
                     continue
                 mpath = minimise(job, v, tier, 20 if tier == "quick" else 90)
